@@ -262,9 +262,34 @@ static void history(uint64_t idx, rng_t *r) {
                 }
                 STAT_INC("c08_structured_addmany_batches");
             }
+            if (rng_chance(r, 1, 6)) {
+                /* very large batches: the whole universe (exactly 65536 new members when the set is empty), all but a
+                 * few values, more values than the universe holds (duplicates), in order or permuted */
+                static const uint32_t bc[] = {65535, 65536, 65536, 65537, 70000, 100000, 131072, 300000};
+                free(vals);
+                cnt = bc[rng_below(r, 8)];
+                vals = malloc(cnt * 2);
+                unsigned big = (unsigned)rng_below(r, 4);
+                uint32_t rot = (uint32_t)rng_below(r, 65536);
+                uint32_t mul = big == 1 ? 1 : (uint32_t)(rng_below(r, 32768) * 2 + 1); /* odd multiplier: a permutation of 0..65535 */
+                for (uint32_t i = 0; i < cnt; i++) {
+                    if (big == 3) vals[i] = (uint16_t)rng_next(r);                 /* random with duplicates */
+                    else vals[i] = (uint16_t)((i + rot) * mul);                    /* every value once per 65536 positions */
+                }
+                if (big == 2 && cnt >= 65536) { /* all but a few */
+                    uint16_t hole = (uint16_t)rng_next(r);
+                    for (uint32_t i = 0; i < cnt; i++) if (vals[i] == hole) vals[i] = (uint16_t)(hole ^ 1);
+                }
+                if (rng_chance(r, 1, 2)) { /* onto an empty set */
+                    varintBitmapClear(OBJ[s]);
+                    memset(MOD[s], 0, sizeof(mset));
+                }
+                STAT_INC("c08_universe_sized_addmany_batches");
+            }
             snprintf(g_opargs, sizeof g_opargs, "slot %d [%s card %u], %u values in [%u,%u)", s, TN[before], MOD[s]->card, cnt, wbase, wbase + wlen);
             varintBitmapAddMany(OBJ[s], vals, cnt);
             for (uint32_t i = 0; i < cnt; i++) m_add(MOD[s], vals[i]);
+            if (MOD[s]->card == 65536) STAT_INC("c08_full_universe_states");
             if (cnt) touched[nt++] = vals[0];
             free(vals);
             break;
